@@ -1,5 +1,6 @@
 import ViaProofs.ConnLemmas
 import ViaProofs.C09
+import ViaProofs.ConnWrites
 /-
   C19 — over TLS: same guarantees, orderly close_notify, server survives every close.
 
@@ -25,6 +26,17 @@ theorem C19_invariant (rest : List String) (history : List (List String)) :
 theorem C19_close_notify_after_write (fuel : Nat) (w : World) (i : Nat) (h : (w.get i).transmitting = true) :
     disconnectConn (fuel + 1) w i = w.upd i fun c => { c with disconnectPending := true } :=
   disconnect_defers fuel w i h
+
+/-- TRACE LEVEL, TLS flavour: after every history a stored (asynchronous) shutdown completion belongs to a connection
+    whose `shutdown_sent_` is set — so its completion only signals DISCONNECTED, it can never be mistaken for the
+    completion of a response write — and a connection that is not transmitting has no write in flight, so the
+    close_notify requested by `disconnect()` is never issued over a response still being written. -/
+theorem C19_close_notify_ordering (rest : List String) (history : List (List String)) (i : Nat) :
+    let w := history.foldl simOp (mkServer ("flavour=ssl" :: rest))
+    ((w.get i).shutStored = true → (w.get i).shutdownSent = true) ∧
+    ((w.get i).transmitting = false → (w.get i).writes = []) := by
+  intro w
+  exact ⟨(winv_get (history_winv _ history) i).2.2, (C09_no_truncation _ history i).2⟩
 
 /-- ssl flavour: `shutdown` emits the close_notify request, cancels the pending operations and leaves the socket
     open; nothing else changes -/
